@@ -27,7 +27,7 @@ fn free_port() -> u16 {
     l.local_addr().unwrap().port()
 }
 
-fn run_mode(mode: &str, conns: &[(bool, Vec<String>)]) -> String {
+fn run_mode(mode: &str, conns: &[(bool, Vec<String>)], keep: &[bool]) -> String {
     let port = free_port();
     let log: Arc<Mutex<HookLog>> = Arc::new(Mutex::new(HookLog::default()));
     let stop = Arc::new(AtomicBool::new(false));
@@ -97,6 +97,7 @@ fn run_mode(mode: &str, conns: &[(bool, Vec<String>)]) -> String {
         }
     };
     let mut transcripts = Vec::new();
+    let mut held: Vec<(usize, TcpStream)> = Vec::new();
     for (ci, (_, steps)) in conns.iter().enumerate() {
         let mut s = match connect(Duration::from_secs(2)) { Some(s) => s, None => { transcripts.push("NOCONNECT".to_string()); continue; } };
         let _ = t0;
@@ -122,6 +123,7 @@ fn run_mode(mode: &str, conns: &[(bool, Vec<String>)]) -> String {
         s.set_read_timeout(Some(Duration::from_millis(150))).unwrap();
         let mut tmp = [0u8; 1024];
         let fin = match s.read(&mut tmp) { Ok(0) => "EOF", Ok(_) => "DATA", Err(e) if e.kind() == std::io::ErrorKind::WouldBlock || e.kind() == std::io::ErrorKind::TimedOut => "OPEN", Err(_) => "EOF" };
+        if keep[ci] { held.push((ci, s)); transcripts.push(format!("{}|{}", outs.join(";"), fin)); continue; }
         drop(s);
         // give the server time to notice the close and run its teardown for this connection
         let want_teardown = conns[ci].0;
@@ -136,6 +138,16 @@ fn run_mode(mode: &str, conns: &[(bool, Vec<String>)]) -> String {
     // stop the server
     stop.store(true, Ordering::SeqCst);
     let _ = connect(Duration::from_millis(500));
+    std::thread::sleep(Duration::from_millis(30));
+    // connections that were kept open across StopAccepting are closed by the client only now
+    let held_ids: Vec<usize> = held.iter().map(|h| h.0).collect();
+    drop(held);
+    let t3 = Instant::now();
+    loop {
+        let done = { let l = log.lock().unwrap(); held_ids.iter().all(|ci| l.conns.get(*ci).map(|c| c.iter().any(|e| e.starts_with("T("))).unwrap_or(false)) };
+        if done || t3.elapsed() > Duration::from_millis(500) { break; }
+        std::thread::sleep(Duration::from_millis(2));
+    }
     let t2 = Instant::now();
     while !returned.load(Ordering::SeqCst) && t2.elapsed() < Duration::from_secs(3) { std::thread::sleep(Duration::from_millis(2)); }
     let ret = returned.load(Ordering::SeqCst);
@@ -147,11 +159,13 @@ fn run_mode(mode: &str, conns: &[(bool, Vec<String>)]) -> String {
 }
 
 pub fn run(case: &str) -> String {
+    // P = proceed, X = setup hook drops it, K = proceed and the client keeps it open across StopAccepting
+    let keep: Vec<bool> = case.split('/').map(|c| c.starts_with("K:")).collect();
     let conns: Vec<(bool, Vec<String>)> = case.split('/').map(|c| {
         let (d, steps) = c.split_once(':').unwrap();
-        (d == "P", steps.split(';').filter(|x| !x.is_empty()).map(|x| x.to_string()).collect())
+        (d == "P" || d == "K", steps.split(';').filter(|x| !x.is_empty()).map(|x| x.to_string()).collect())
     }).collect();
-    ["pool", "threaded", "epoll"].iter().map(|m| run_mode(m, &conns)).collect::<Vec<_>>().join(" ## ")
+    ["pool", "threaded", "epoll"].iter().map(|m| run_mode(m, &conns, &keep)).collect::<Vec<_>>().join(" ## ")
 }
 
 pub fn gen(ctx: &Ctx) {
@@ -191,9 +205,16 @@ pub fn gen(ctx: &Ctx) {
             if rng.chance(1, 3) { steps.push("X".into()); }
             conns.push(format!("{}:{}", if proceed { "P" } else { "X" }, steps.join(";")));
         }
-        let case = conns.join("/");
+        let mut case = conns.join("/");
+        let mut class = format!("conns{nc}");
+        if rng.chance(1, 8) {
+            // one more connection: a request, then the client keeps it open while the server is told to stop
+            let r = Req { method: "GET", path: "/none".into(), fields: vec![], body: vec![] };
+            case.push_str(&format!("/K:{}", exchange(&mut rng, &r, false).join(";")));
+            class = "kept-open-across-stop".into();
+        }
         let r = run(&case);
-        out.emit(&case, &r, &format!("conns{nc}"), r.contains(",k|") || r.contains(",k;") || r.contains(",c|"));
+        out.emit(&case, &r, &class, r.contains(",k|") || r.contains(",k;") || r.contains(",c|"));
     }
     out.finish();
 }
